@@ -300,7 +300,7 @@ Definition stack_const (f : field) (c : const) : res field :=
   match c with
   | CNum _ _ => const_field f 1 c
   | CVec _ v => const_field f (length v) c
-  | CArr k _ => const_field f (n0 (fmesh f)) c     (* nvdim=len(other) *)
+  | CArr k _ => const_field f k c                 (* nvdim=np.shape(other)[-1] *)
   end.
 
 Definition stack_op (f : field) (other : value) : res field :=
